@@ -429,3 +429,75 @@ def prov_rdkit_source(repo, tier="quick"):
             obs.append(ob_undecided(oid, fi, call, construct="%s() of %s" % (what, ast.unparse(call.func.value)), instance=what,
                                     reason="the molecule that is read is neither the argument nor a known derivative of it"))
     return obs
+
+
+# ---------------------------------------------------------------------------------------------------------------------
+# DET.level-state (C06, C02, C10): nothing but the two graphs is handed from one resolution level to the next
+# ---------------------------------------------------------------------------------------------------------------------
+
+_MUTATORS = {"append", "extend", "insert", "add", "update", "setdefault", "pop", "popitem", "remove", "discard", "clear", "sort", "reverse",
+             "add_node", "add_nodes_from", "add_edge", "add_edges_from", "remove_node", "remove_nodes_from", "remove_edge", "remove_edges_from", "appendleft"}
+
+
+def _self_attr(node):
+    """`self.x` (possibly subscripted / attribute-extended: self.x[k], self.x.nodes[k]) -> 'x'."""
+    while isinstance(node, (ast.Subscript, ast.Attribute)):
+        if isinstance(node, ast.Attribute) and isinstance(node.value, ast.Name) and node.value.id == "self":
+            return node.attr
+        node = node.value
+    return None
+
+
+def det_level_state(repo, tier="quick"):
+    """resolve() is called once per level on the same MoleculeResolver.  What one level leaves for the next are the two graphs
+    (both re-assigned by resolve()) and the level counter.  A container attribute that is created in the constructor, filled
+    while a level is resolved and never replaced by resolve() still holds the entries of the previous level when the next one
+    starts: node keys start from 0 on every level, so the stale entries name unrelated atoms."""
+    oid = "DET.level-state"
+    mod = repo.module("resolve")
+    cls = "MoleculeResolver"
+    methods = [fi for q, fi in mod.functions.items() if q.startswith(cls + ".")]
+    need(methods, "anchor vanished: class MoleculeResolver not found in resolve.py")
+    res = repo.function("resolve:%s.resolve" % cls)
+    reach = repo.reachable([res.fq])
+    per_level = [fi for fi in methods if fi.fq in reach]
+    # attributes replaced while a level is resolved (plain assignment `self.x = ...` in resolve() or a method it calls)
+    replaced = set()
+    mutated = {}
+    for fi in per_level:
+        for sub in ast.walk(fi.node):
+            if isinstance(sub, (ast.Assign, ast.AnnAssign)):
+                tgs = sub.targets if isinstance(sub, ast.Assign) else [sub.target]
+                for t in tgs:
+                    for e in (t.elts if isinstance(t, (ast.Tuple, ast.List)) else [t]):
+                        if isinstance(e, ast.Attribute) and isinstance(e.value, ast.Name) and e.value.id == "self":
+                            replaced.add(e.attr)
+                        elif isinstance(e, ast.Subscript):
+                            a = _self_attr(e)
+                            if a:
+                                mutated.setdefault(a, (fi, sub))
+            elif isinstance(sub, ast.AugAssign):
+                a = _self_attr(sub.target) if not (isinstance(sub.target, ast.Attribute) and isinstance(sub.target.value, ast.Name) and sub.target.value.id == "self") else None
+                if a:
+                    mutated.setdefault(a, (fi, sub))
+            elif isinstance(sub, ast.Delete):
+                for t in sub.targets:
+                    a = _self_attr(t)
+                    if a and isinstance(t, ast.Subscript):
+                        mutated.setdefault(a, (fi, sub))
+            elif isinstance(sub, ast.Call) and isinstance(sub.func, ast.Attribute) and sub.func.attr in _MUTATORS:
+                a = _self_attr(sub.func.value)
+                if a:
+                    mutated.setdefault(a, (fi, sub))
+    obs = []
+    for a in sorted(mutated):
+        fi, site = mutated[a]
+        if a in replaced:
+            obs.append(ob_ok(oid, fi, site, construct="self.%s is filled in place and replaced while a level is resolved" % a, instance=a,
+                             reason="the next level starts from a new object"))
+        else:
+            obs.append(ob_fail(oid, fi, site, construct="self.%s is filled in place in %s and never replaced by resolve()" % (a, fi.name), instance=a,
+                               reason="the entries made while one level is resolved are still there when the next level is resolved on the same object: node keys "
+                                      "start from 0 again, so they name unrelated nodes of the next level"))
+    need(obs, "anchor vanished: no attribute of MoleculeResolver is modified in place while a level is resolved (self.molecule is expected)")
+    return obs
